@@ -43,6 +43,7 @@ import (
 	"github.com/libp2p/go-libp2p/core/crypto"
 
 	"github.com/ucan-wg/go-ucan/did"
+	"github.com/ucan-wg/go-ucan/internal/stream"
 	"github.com/ucan-wg/go-ucan/token/internal/varsig"
 )
 
@@ -81,7 +82,7 @@ func Decode[T Tokener](b []byte, decFn codec.Decoder) (T, error) {
 
 // DecodeReader is the same as Decode, but accept an io.Reader.
 func DecodeReader[T Tokener](r io.Reader, decFn codec.Decoder) (T, error) {
-	node, err := ipld.DecodeStreaming(r, decFn)
+	node, err := ipld.DecodeStreaming(stream.Progress(r), decFn)
 	if err != nil {
 		return *new(T), err
 	}
